@@ -26,3 +26,65 @@ Theorem C20_queue_length_refuted : exists d m ls, wf_client ls = true /\ 2 <= m 
   qlen (fst (q_run (mkCfg d m) q_init ls)) <> Z.of_nat (length (q_abs (fst (q_run (mkCfg d m) q_init ls)))).
 Proof. exact queue_length_refuted. Qed.
 Print Assumptions C20_queue_length_refuted.
+
+(* What IS proved, with the full conclusion, under hypotheses that describe the findings' triggers and nothing more
+   ([no_findings c ls], decidable, evaluated along the run of the model under configuration c):
+     - maxMessagesInRAM >= 2 (F40) and < 2^64 (the uint64 of the code);
+     - no loader turn PROCEEDS (ring below half the limit, swapped) while a message ahead of lastMemMsgID sits
+       unflushed in a store's pending add map (F24);
+     - no purge while swapped to disk (F24, second trigger);
+     - a pop finds the ring empty only when nothing waits on disk (scheduling: consumers are woken by pushes into the
+       ring; a pop on an empty ring is not a delivery attempt a client can see);
+   and client well-formedness [wf_client] (ids positive and increasing as amqp.GenerateSeq makes them; only delivered,
+   unsettled messages are requeued / acked, with the persistence flag they were published with).
+
+   Refinement: the queue with overflow to disk, driven by ANY such label list (any interleaving of client operations,
+   loader turns and persist ticks of both stores), produces exactly the outputs of the unlimited FIFO list, holds
+   exactly its contents (ring ++ what is on disk ahead of lastMemMsgID, by id), and counts it right. *)
+Theorem C19_refines_unlimited_partial : forall c ls, wf_client ls = true -> no_findings c ls = true ->
+  snd (q_run c q_init ls) = snd (spec_run [] ls) /\
+  q_abs (fst (q_run c q_init ls)) = fst (spec_run [] ls) /\
+  qlen (fst (q_run c q_init ls)) = Z.of_nat (length (fst (spec_run [] ls))).
+Proof. exact refines_unlimited. Qed.
+Print Assumptions C19_refines_unlimited_partial.
+
+(* Configuration independence: any two limits, any two schedules of the same client operations *)
+Theorem C19_config_independent_partial : forall d m1 m2 ls1 ls2,
+  wf_client ls1 = true -> wf_client ls2 = true -> client ls1 = client ls2 ->
+  no_findings (mkCfg d m1) ls1 = true -> no_findings (mkCfg d m2) ls2 = true ->
+  let r1 := q_run (mkCfg d m1) q_init ls1 in
+  let r2 := q_run (mkCfg d m2) q_init ls2 in
+  client_outs ls1 (snd r1) = client_outs ls2 (snd r2) /\ q_abs (fst r1) = q_abs (fst r2).
+Proof. exact config_independent_partial. Qed.
+Print Assumptions C19_config_independent_partial.
+
+(* Queue-level C20: at EVERY state of such a run (after every prefix ls1) queueLength = |ring| + |on disk, not yet loaded| *)
+Theorem C20_queue_length_partial : forall c ls1 ls2,
+  wf_client (ls1 ++ ls2) = true -> no_findings c (ls1 ++ ls2) = true ->
+  let s := fst (q_run c q_init ls1) in
+  qlen s = Z.of_nat (length (q_abs s)) /\ q_abs s = fst (spec_run [] ls1).
+Proof. exact queue_length_partial. Qed.
+Print Assumptions C20_queue_length_partial.
+
+(* Non-vacuity: one client workload (persistent and transient messages, a requeue, an ack) under limit 2 (overflows to
+   both stores, reloads in two rounds) and under limit 100 (never overflows), with different schedules: the hypotheses
+   hold for both, the queue does overflow under limit 2, and the conclusion is computed. *)
+Definition C19_example_ls1 : list label :=
+  [Push 1 false; Push 2 true; Push 3 false; Push 4 true; Push 5 false; Push 6 false; Pop; Pop; Pop;
+   PersistTick true; PersistTick false; LoaderTurn; Pop; Requeue 4 true; Pop; Pop; PersistTick false; LoaderTurn; Pop;
+   AckMsg 1 false; Pop].
+Definition C19_example_ls2 : list label :=
+  [Push 1 false; Push 2 true; LoaderTurn; Push 3 false; Push 4 true; Push 5 false; Push 6 false; Pop; Pop; Pop;
+   Pop; Requeue 4 true; PersistTick true; Pop; Pop; Pop; AckMsg 1 false; LoaderTurn; Pop].
+
+Example C19_hypotheses_inhabited :
+  wf_client C19_example_ls1 = true /\ wf_client C19_example_ls2 = true /\
+  client C19_example_ls1 = client C19_example_ls2 /\
+  no_findings (mkCfg true 2) C19_example_ls1 = true /\ no_findings (mkCfg true 100) C19_example_ls2 = true /\
+  (* it does overflow: after the sixth push the queue is swapped, three messages are on disk *)
+  swapped (fst (q_run (mkCfg true 2) q_init (firstn 6 C19_example_ls1))) = true /\
+  abs_disk (fst (q_run (mkCfg true 2) q_init (firstn 6 C19_example_ls1))) = [4; 5; 6] /\
+  client_outs C19_example_ls1 (snd (q_run (mkCfg true 2) q_init C19_example_ls1)) =
+    [ONone; ONone; ONone; ONone; ONone; ONone; OPop (Some 1); OPop (Some 2); OPop (Some 3); OPop (Some 4); ONone;
+     OPop (Some 4); OPop (Some 5); OPop (Some 6); ONone; OPop None].
+Proof. vm_compute. repeat split; reflexivity. Qed.
